@@ -32,7 +32,7 @@ pub fn parse_host(spec: &str) -> Option<Host> {
             let cs: Vec<char> = part.chars().collect();
             // d<0|1>a<0|1>
             if cs.len() >= 4 {
-                h.defer_mode = if cs[1] == '1' { 1 } else { 0 };
+                h.defer_mode = match cs[1] { '1' => 1, '2' => 2, _ => 0 };      // 2: accepts, but FAILS on Subtract / Opposite
                 h.apply_mode = if cs[3] == '1' { 1 } else { 0 };
             }
         } else if let Some((name, v)) = part.split_once('=') {
